@@ -141,6 +141,10 @@ def call_ext(I: Any, name: str, args: List[Term], kwargs: Dict[str, Term], st: A
             items = I.iter_items(a0, st, ctx, node)
             if items is not None and all(is_c(x) and isinstance(x[1], int) and 0 <= x[1] <= 255 for x in items):
                 return ("seq", "raw", (("L", bytes(x[1] for x in items).hex()),) if items else ())
+            if items is not None and len(items) == 1 and is_int_term(items[0]) and not is_c(items[0]):
+                # bytes((x,)) is the single byte x (ValueError outside 0..255): as text its hex is '{:02x}'.format(x)
+                st.may_raise("ValueError", ("outofrange", items[0], c(0), c(255)), where)
+                return ("seq", "raw", (("fmt", "02x", items[0]),))
             if items is not None and items and all(is_c(x) and isinstance(x[1], int) and 0 <= x[1] <= 255 or byte_atom_of(x) is not None for x in items):
                 return T.seq("raw", tuple(("L", "%02x" % x[1]) if is_c(x) else byte_atom_of(x) for x in items))
         return app(name, args, kwargs)
@@ -284,6 +288,33 @@ def call_ext(I: Any, name: str, args: List[Term], kwargs: Dict[str, Term], st: A
         return I.external_call(name, args, kwargs, st, ctx, node, awaited)
     if name == "socket.inet_ntoa":
         return text_of(app("inet_ntoa", args))
+    if name == "operator.methodcaller" and len(args) >= 1 and is_c(args[0]) and isinstance(args[0][1], str) and args[0][1].isidentifier():
+        # methodcaller("m", *a, **k) == lambda x: x.m(*a, **k); the extra arguments are captured by name
+        cap: Dict[str, Term] = {}
+        call_args: List[ast.expr] = []
+        for i_, a_ in enumerate(args[1:]):
+            cap[f"$mc{i_}"] = a_
+            call_args.append(ast.Name(id=f"$mc{i_}", ctx=ast.Load()))
+        kws = []
+        for k_, v_ in kwargs.items():
+            cap[f"$mck_{k_}"] = v_
+            kws.append(ast.keyword(arg=k_, value=ast.Name(id=f"$mck_{k_}", ctx=ast.Load())))
+        lam = ast.Lambda(args=ast.arguments(posonlyargs=[], args=[ast.arg(arg="$x")], kwonlyargs=[], kw_defaults=[], defaults=[]),
+                         body=ast.Call(func=ast.Attribute(value=ast.Name(id="$x", ctx=ast.Load()), attr=args[0][1], ctx=ast.Load()), args=call_args, keywords=kws))
+        ast.copy_location(lam, node)
+        ast.fix_missing_locations(lam)
+        return ("lambda", lam, None, ctx.fi, cap)
+    if name == "operator.itemgetter" and len(args) >= 2 and not kwargs and all(is_c(a) and isinstance(a[1], (str, int)) or (isinstance(a, tuple) and a and a[0] == "sliceobj") for a in args):
+        # itemgetter(i, j, ...) == lambda x: (x[i], x[j], ...)
+        cap2: Dict[str, Term] = {}
+        elts: List[ast.expr] = []
+        for i_, a_ in enumerate(args):
+            cap2[f"$ig{i_}"] = a_
+            elts.append(ast.Subscript(value=ast.Name(id="$x", ctx=ast.Load()), slice=ast.Name(id=f"$ig{i_}", ctx=ast.Load()), ctx=ast.Load()))
+        lam = ast.Lambda(args=ast.arguments(posonlyargs=[], args=[ast.arg(arg="$x")], kwonlyargs=[], kw_defaults=[], defaults=[]), body=ast.Tuple(elts=elts, ctx=ast.Load()))
+        ast.copy_location(lam, node)
+        ast.fix_missing_locations(lam)
+        return ("lambda", lam, None, ctx.fi, cap2)
     if name in ("operator.attrgetter", "operator.itemgetter") and len(args) == 1 and not kwargs and is_c(args[0]) and isinstance(args[0][1], (str, int)):
         # a synthesised lambda: attrgetter("a.b") == lambda x: x.a.b ; itemgetter(k) == lambda x: x[k]
         body: ast.expr = ast.Name(id="$x", ctx=ast.Load())
@@ -396,6 +427,8 @@ def call_ext(I: Any, name: str, args: List[Term], kwargs: Dict[str, Term], st: A
             a3[:len(args)] = args
         return ("sliceobj", a3[0], a3[1], a3[2])
     if name in ("builtins.round",):
+        if not kwargs and 1 <= len(args) <= 2 and all(is_c(a) and isinstance(a[1], (int, float)) and not isinstance(a[1], bool) for a in args):
+            return c(round(*[a[1] for a in args]))
         return app("round", args, kwargs)
     if name == "builtins.hash":
         return app("hash", args)
@@ -591,6 +624,8 @@ def is_int_term(v: Term) -> bool:
     if v[0] == "lin":
         return all(is_int_term(t) and isinstance(k, int) for t, k in v[1].coef.items()) and isinstance(v[1].const, int)
     if v[0] == "app":
+        if v[1] == "sum" and len(v) == 3 and isinstance(v[2], tuple) and v[2][:1] == ("map",) and is_int_term(v[2][1]):
+            return True   # a sum of integers
         return v[1] in ("int", "crc_hqx", "binascii.crc_hqx", "floordiv_int", "sum_int")
     if v[0] == "eattr":
         return bool(len(v) > 3 and v[3] and all(isinstance(a, int) for a in v[3]))
@@ -1023,6 +1058,25 @@ def isinstance_cond(I: Any, v: Term, cls: Term, st: Any) -> Term:
             return c(cls[1] in ho.cls.mro())
     if v[0] == "enum" and cls[0] == "class":
         return c(I.prog.cls(v[1].cls) is cls[1])
+    if is_c(v) and cls[0] == "class":
+        return c(False)     # None / a number / a string is not an instance of a repository class
+    if v[0] == "sym" and isinstance(v[2], tuple) and v[2] and v[2][0] == "enum" and cls[0] == "class":
+        return c(I.prog.cls(v[2][1]) is cls[1])
+    if v[0] == "lookup" and cls[0] == "class" and v[1] and all(x[0] == "enum" for _, x in v[1]):
+        rs = {I.prog.cls(x[1].cls) is cls[1] for _, x in v[1]}
+        if len(rs) == 1:
+            return c(rs.pop())
+    if v[0] == "ite" and len(v) == 4:
+        from .interp import ite
+        a, b = isinstance_cond(I, v[2], cls, st), isinstance_cond(I, v[3], cls, st)
+        if is_c(a) and is_c(b):
+            if a[1] and not b[1]:
+                return v[1]
+            if b[1] and not a[1]:
+                from .interp import neg
+                return neg(v[1])
+            return c(a[1])
+        return ite(v[1], a, b)
     return ("isinstance", v, cls)
 
 
